@@ -228,3 +228,114 @@ func (s *Spec) Resolve(from *Pkg, t *TypeRef) (*Pkg, *Decl) {
 	}
 	return p, nil
 }
+
+// BreakValueCycles repairs the spec so that no type contains itself (through
+// fields, containers, pointers, named underlying types or union membership,
+// promoted methods included): the field closing a cycle is retyped to int.
+// It returns the number of repaired fields.
+func (s *Spec) BreakValueCycles() int {
+	repaired := 0
+	for iter := 0; iter < 50; iter++ {
+		unions := s.Unions()
+		type node struct {
+			p *Pkg
+			d *Decl
+		}
+		var cycleField *Field
+		state := map[*Decl]int{} // 1 = on stack, 2 = done
+		var visit func(n node) bool
+		var visitType func(p *Pkg, t *TypeRef, via *Field) bool
+		visitType = func(p *Pkg, t *TypeRef, via *Field) bool {
+			if t == nil {
+				return false
+			}
+			if t.K == TRef {
+				if rp, rd := s.Resolve(p, t); rd != nil {
+					if state[rd] == 1 {
+						cycleField = via
+						return true
+					}
+					if state[rd] == 0 && visit(node{rp, rd}) {
+						if cycleField == nil {
+							cycleField = via
+						}
+						return true
+					}
+				}
+			}
+			if visitType(p, t.Elem, via) || visitType(p, t.Key, via) {
+				return true
+			}
+			for _, a := range t.Args {
+				if visitType(p, a, via) {
+					return true
+				}
+			}
+			return false
+		}
+		visit = func(n node) bool {
+			state[n.d] = 1
+			defer func() { state[n.d] = 2 }()
+			switch n.d.Kind {
+			case KUnion:
+				if u := unions[n.p.Path][n.d.Name]; u != nil {
+					for _, m := range u.Members {
+						md := s.FindDecl(n.p.Path, m)
+						if md == nil {
+							continue
+						}
+						if state[md] == 1 {
+							return true // closed through membership: the caller's field is the culprit
+						}
+						if state[md] == 0 && visit(node{n.p, md}) {
+							return true
+						}
+					}
+				}
+			default:
+				if n.d.Type != nil && visitType(n.p, n.d.Type, nil) {
+					return true
+				}
+				for _, f := range n.d.Fields {
+					if visitType(n.p, f.Type, f) {
+						if cycleField == nil {
+							cycleField = f
+						}
+						return true
+					}
+				}
+			}
+			return false
+		}
+		found := false
+		for _, p := range s.Pkgs {
+			for _, f := range p.Files {
+				for _, d := range f.Decls {
+					if state[d] == 0 && visit(node{p, d}) {
+						found = true
+						break
+					}
+				}
+				if found {
+					break
+				}
+			}
+			if found {
+				break
+			}
+		}
+		if !found {
+			return repaired
+		}
+		if cycleField == nil {
+			return repaired // cycle without a struct field (cannot happen for well-typed programs)
+		}
+		if cycleField.Embedded {
+			cycleField.Embedded = false
+			cycleField.Name = "Was" + cycleField.Name
+		}
+		cycleField.Type = Basic("int")
+		repaired++
+	}
+	return repaired
+}
